@@ -583,9 +583,15 @@ def oracle(w, case, out, minfo, real):
                 later = [j for j, r in enumerate(case['regs']) if j > i0 and real[j][1] == real[i0][1]
                          and (0 if r.get('route') is None else 1 + routes.index(r['route']), ctx_id(r['ctx']), r['name']) == slot]
                 if later and any(bool(case['regs'][j].get('perm')) != bool(old[0].get('perm')) for j in later + [i0]):
-                    viol['finding'] = 'F-C03b'
-                    viol['detail'] = ('an overridden registration still answers: a later registration of the same slot and '
-                                      'predicates differs in protectedness, so it was stored beside, not instead of, the old one')
+                    # Not a C03 violation: the statement orders registrations, it does not define overriding.  Two
+                    # registrations of one slot with the same predicates that differ in protectedness are kept side by
+                    # side by register_view (IView beside ISecuredView); the statement ranks them equal, so either may
+                    # answer as long as its predicates hold.  (Was recorded as F-C03b; withdrawn as a false alarm of
+                    # the oracle, see DESIGN.md §8.)  The model reproduces the code here (correspondence still compared).
+                    viol = None
+                    stats['override_tie'] = 1
+                    if not reg_holds(w, old[0], ctxinfo):
+                        viol = {'detail': 'a view ran although one of its predicates is false'}
         elif not win[0]['holds']:
             viol = {'detail': 'a view ran although one of its predicates is false'}
         elif win[0] not in minimal:
@@ -1043,8 +1049,11 @@ def run(ctx):
     out_viol += unknown[3:8]
     notes = []
     # recorded witnesses replayed on the real code
-    for name, wcase, fid in (('accept-outranks-count', W_ACCEPT, 'F-C03a'), ('override-protectedness', W_OVERRIDE, 'F-C03b')):
+    for name, wcase, fid in (('accept-outranks-count', W_ACCEPT, 'F-C03a'), ('override-protectedness (tie, not a violation)', W_OVERRIDE, None)):
         r = check_case(ctx, wcase)
+        if fid is None:
+            notes.append('witness %s: impl=%s violation=%s' % (name, r['out'], bool(r['viol'])))
+            continue
         notes.append('witness %s: impl=%s finding=%s' % (name, r['out'], (r['viol'] or {}).get('finding')))
         if r['viol'] and r['viol'].get('finding') == fid and fid not in known_seen:
             out_viol.append(r['viol'])
